@@ -46,7 +46,9 @@ RULE = ('cases from one PRNG: (a) 66% amplifier crossings: an amplifier of a shi
         'point; (a\') 6% Multiband_amplifier crossings (shipped multiband library, spectrum over both bands); (b) 12% NF '
         'shape of min/max-NF amplifiers at gmax, gmin, below gmin and sorted random gains; (c) 10% estimate_nf_model '
         'incl. rejected inputs (both branches, recomputed delta_p); (d) 6% library entries with missing/extra keys, '
-        'each loaded entry then used in a crossing. Non-trivial: (a) at least one channel kept and (>= 2 channels or '
+        'each loaded entry then used in a crossing; 15% of (a) call the SAME object twice on the same grid with the same total '
+        'power and tilt but the reversed power spread over the channels (two swapped channels when saturating); the NF of '
+        'dual-stage types is judged against the cascade of the two stand-alone library stage entries. Non-trivial: (a) at least one channel kept and (>= 2 channels or '
         'saturated), (a\') >= 2 channels kept, (b)-(d) always; thorough tier adds the exhaustive corners of the stock library (19 amplifiers x 4 gains x '
         '3 loads x 3 channel counts x 2 tilts); distinct = distinct canonical JSON')
 MODEL_SCOPE = ('modelled: Edfa.__call__/propagate/interpol_params (band filter, in_voa, total input power, clamp on the '
@@ -206,7 +208,24 @@ def gen_call(rng, tier, widen):
     if iv != 'absent':
         oper['in_voa'] = iv
     calls = []
-    for _ in range(rng.choice([1, 1, 1, 1, 2, 2, 3])):
+    if rng.random() < 0.15:
+        # the SAME object twice on the same grid with the same total input power and tilt, but the power spread over the
+        # channels the other way round (the gain profile depends on it): two channels swapped when saturating (a+b = b+a
+        # exactly, so even the clamped gain is identical), a reversed power ramp over any comb otherwise
+        oper['tilt_target'] = rng.choice([1, -1, 2, -2, 1.5])
+        saturating = rng.random() < 0.4
+        nmax_ = 2 if saturating else rng.choice([2, 3, 8, 24])
+        chans = amplib.comb(rng, int(a.f_min), int(a.f_max), nmax_, None, 12_500_000_000 * rng.randrange(0, 20))
+        ptot = a.p_max - gain + (rng.uniform(1, 5) if saturating else -rng.uniform(6, 25))
+        n_ = max(1, len(chans))
+        spread = rng.choice([6.0, 8.0, 10.0])
+        ramp = [spread * (i / max(1, n_ - 1) - 0.5) for i in range(n_)]
+        base = ptot - 10 * math.log10(sum(10 ** (r_ / 10) for r_ in ramp))
+        pw = [round(base + r_, 3) for r_ in ramp]
+        nz = rng.choice([0, 0.05])
+        calls.append({'chans': [c + [x] for c, x in zip(chans, pw)], 'noise': nz})
+        calls.append({'chans': [c + [x] for c, x in zip(chans, reversed(pw))], 'noise': nz})
+    for _ in range(rng.choice([1, 1, 1, 1, 2, 2, 3]) if not calls else 0):
         chans = gen_spectrum(rng, int(a.f_min), int(a.f_max), tier)
         calls.append({'chans': gen_powers(rng, chans, oper, a.p_max, widen),
                       'noise': rng.choice([0, 0, 0.01, 0.2, round(rng.uniform(0, 0.5), 3)])})
@@ -414,6 +433,7 @@ def run_call(case, drv):
                         'in_voa': None if in_voa is None else f2b(in_voa), 'out_voa': f2b(oper['out_voa'])},
                   calls=model_calls, persist=GAIN_REDUCTION_PERSISTS)
     set_gain = float(oper['gain_target'])
+    eff_hist = []
     prev_eff = set_gain
     kept_any = saturated = False
     flat_cfg = (float(oper['tilt_target']) == 0.0 and not np.any(np.asarray(p.gain_ripple, dtype=float)))
@@ -512,7 +532,7 @@ def run_call(case, drv):
                                           else 'lt_0.02dB' if r_ < 0.02 else 'ge_0.02dB')] += 1
         # NF follows the configured model (own evaluation), ASE = h f B NF referred to the input
         slot_w = (ch[keep[1]][0] - ch[keep[0]][0]) if n > 1 else ch[keep[0]][1]
-        nf_avg, _pad = amplib.mon_nf(p, eff, pin_db, n, float(slot_w))
+        nf_avg, _pad = amplib.mon_nf(p, eff, pin_db, n, float(slot_w), eq=eq)
         # OpenROADM masks are given per 50 GHz: on a comb whose slot widths / spacings are not all equal the statement
         # does not say which width rescales the input power -> the NF of such a crossing is under correspondence only
         uniform = all(ch[i][1] == ch[keep[0]][1] for i in keep) and all(
@@ -520,6 +540,10 @@ def run_call(case, drv):
         tdefs = [p.type_def] if p.type_def != 'dual_stage' else [p.preamp_type_def, p.booster_type_def]
         nf_by_correspondence = (not uniform) and any(t in ('openroadm', 'openroadm_preamp') for t in tdefs)
         res.stats['openroadm_nonuniform_comb_nf_by_correspondence'] += int(nf_by_correspondence)
+        if p.type_def == 'dual_stage':
+            pre_, boost_ = (eq['Edfa'][n_] for n_ in amplib.dual_names(p))
+            res.stats['dual_stage_booster_below_its_min_gain'] += int(eff - pre_.gain_flatmax < boost_.gain_min)
+            res.stats['dual_stage_stage_min_gains_differ'] += int(pre_.gain_min != boost_.gain_min)
         ripple = np.interp([float(ch[i][0]) for i in keep], np.linspace(p.f_min, p.f_max, len(p.nf_ripple)),
                            np.asarray(p.nf_ripple, dtype=float))
         nf_impl = np.broadcast_to(np.asarray(amp.nf, dtype=float), (n,))
@@ -546,7 +570,11 @@ def run_call(case, drv):
                           'single_channel_calls': int(n == 1), 'tilted_or_ripple_calls': int(not flat_cfg and n > 1),
                           'padded_calls': int(float(amp.att_in) > 0), f'typedef_{p.type_def}': 1,
                           'later_calls': int(ci > 0), 'with_prior_noise': int(bool(call.get('noise'))),
-                          'dual_stage_saturated_calls': int(sat_now and p.type_def == 'dual_stage')})
+                          'dual_stage_saturated_calls': int(sat_now and p.type_def == 'dual_stage'),
+                          'same_grid_same_gain_other_power_spread': int(
+                              ci > 0 and [c[:3] for c in ch] == [c[:3] for c in calls[ci - 1]['chans']]
+                              and bool(eff_hist) and abs(eff - eff_hist[-1]) < 1e-12 and not flat_cfg)})
+        eff_hist.append(eff)
     res.nontrivial = kept_any and (saturated or any(len(c['chans']) >= 2 for c in calls))
     res.stats.update({'call_cases': 1, 'lib_shipped': int('shipped' in case['lib'])})
     return res
